@@ -353,7 +353,9 @@ func runArmor(_ *testing.T, c acase) error {
 }
 
 var wsRuns = []string{" ", "\t", "\n", "\r", "\f", "\r\n", "  ", " \n ", "\n\n\n", "\t \f", "          "}
-var outside = []string{"<div>", "</div>", "<p>cached copy</p>", "<!-- amp cache -->", "<span class=\"a b\" data-x='1'>", "</span>", "text outside", "<b>0AAAA</b>", "&amp;&lt;", "<img src=x>", "<br/>", "\n\n", "<script>var pre = 1;</script>", "<amp-analytics type=\"x\"></amp-analytics>"}
+var outside = []string{"<div>", "</div>", "<p>cached copy</p>", "<!-- amp cache -->", "<span class=\"a b\" data-x='1'>", "</span>", "text outside", "<b>0AAAA</b>", "&amp;&lt;", "<img src=x>", "<br/>", "\n\n", "<script>var pre = 1;</script>", "<amp-analytics type=\"x\"></amp-analytics>",
+	// pre elements without any word are markup outside the data-bearing pre elements too
+	"<pre></pre>", "<pre>\n</pre>", "<pre> \t</pre>"}
 
 func genSize(t *rapid.T) int {
 	switch rapid.IntRange(0, 9).Draw(t, "sizeclass") {
